@@ -96,6 +96,24 @@ theorem attr_withRotate (rot : Str → RotInfo) (td : TypeDef) (c : HWc) (n : No
   · rw [attr_setAttr]; simp [h]
   · rfl
 
+theorem attr_withRotate_transform (rot : Str → RotInfo) (td : TypeDef) (c : HWc) (n : Node) :
+    Spec.Svg.attr (withRotate rot td c n) "transform"
+      = if rotIsZero td.rotate = false then some (rotateStr (rot td.rotate).fmt c) else Spec.Svg.attr n "transform" := by
+  unfold withRotate
+  split
+  · rw [attr_setAttr]; simp [bytes_eq]
+  · rfl
+
+theorem wantTransform_eq (rot : Str → RotInfo) (c : HWc) (td : TypeDef) :
+    Spec.Svg.wantTransform (fmtOf rot) c td
+      = if rotIsZero td.rotate = false then some (rotateStr (rot td.rotate).fmt c) else none := by
+  unfold Spec.Svg.wantTransform rotateStr fmtOf
+  cases rotIsZero td.rotate with
+  | true => rfl
+  | false =>
+    simp only [Bool.false_eq_true, if_false, if_true, dec_eq_itoa, bytes_eq]
+    rfl
+
 theorem name_withRotate (rot : Str → RotInfo) (td : TypeDef) (c : HWc) (n : Node) :
     (withRotate rot td c n).name = n.name := by
   unfold withRotate; split <;> simp [name_setAttr]
@@ -113,39 +131,67 @@ theorem itoa_nat (n : Nat) : itoa (n : Int) = natLit n := by rw [← dec_eq_itoa
 
 /-! ## the elements, one by one -/
 
+/-- `transform` of a freshly built node (no `transform` among the attributes set so far) after `withRotate` -/
+theorem transform_fresh (rot : Str → RotInfo) (td : TypeDef) (c : HWc) (n : Node)
+    (h : Spec.Svg.attr n "transform" = none) :
+    Spec.Svg.attr (withRotate rot td c n) "transform" = Spec.Svg.wantTransform (fmtOf rot) c td := by
+  rw [attr_withRotate_transform, wantTransform_eq, h]
+
 theorem mainOk_mainShape (rot : Str → RotInfo) (c : HWc) (td : TypeDef) :
-    Spec.Svg.mainOk c td (mainShape rot c td) = true := by
+    Spec.Svg.mainOk (fmtOf rot) c td (mainShape rot c td) = true := by
   unfold Spec.Svg.mainOk mainShape
   by_cases h : td.h > 0
   · simp (config := { decide := true }) only [h, if_true, addFormatting, setAttrs_cons, setAttrs_nil, attr_setAttr,
       name_setAttr, attr_withRotate, name_withRotate, attr_empty, dec_eq_itoa, itoa_nat, bytes_eq]
-    simp
+    rw [transform_fresh]
+    · simp
+    · simp (config := { decide := true }) only [attr_setAttr, attr_empty, if_false]
   · simp (config := { decide := true }) only [h, if_false, addFormatting, setAttrs_cons, setAttrs_nil, attr_setAttr,
       name_setAttr, attr_withRotate, name_withRotate, attr_empty, dec_eq_itoa, itoa_nat, bytes_eq]
-    simp
+    rw [transform_fresh]
+    · simp
+    · simp (config := { decide := true }) only [attr_setAttr, attr_empty, if_false]
+
+theorem subExtra_ok (rot : Str → RotInfo) (c : HWc) (td : TypeDef) (s : SubEl) (n0 : Node)
+    (ht : Spec.Svg.attr n0 "transform" = none) (hrx : Spec.Svg.attr n0 "rx" = none)
+    (hry : Spec.Svg.attr n0 "ry" = none) (hst : Spec.Svg.attr n0 "style" = none) :
+    Spec.Svg.subExtraOk (fmtOf rot) c td s (addSubElFormatting (withRotate rot td c n0) s) = true := by
+  unfold Spec.Svg.subExtraOk addSubElFormatting Spec.Svg.wantInt Spec.Svg.wantStr
+  have hT := transform_fresh rot td c n0 ht
+  by_cases h1 : s.rx = 0 <;> by_cases h2 : s.ry = 0 <;> by_cases h3 : s.style = [] <;>
+  simp (config := { decide := true }) [h1, h2, h3, setAttrs_cons, setAttrs_nil, attr_setAttr, attr_withRotate, hT,
+    hrx, hry, hst, dec_eq_itoa, bytes_eq]
 
 theorem subRect_ok (rot : Str → RotInfo) (c : HWc) (td : TypeDef) (s : SubEl) :
-    Spec.Svg.slotOk c (.subRect s) (addSubElFormatting (withRotate rot td c (setAttrs { name := b "rect" }
+    Spec.Svg.slotOk (fmtOf rot) c td (.subRect s) (addSubElFormatting (withRotate rot td c (setAttrs { name := b "rect" }
       [(b "x", itoa (c.x + s.x)), (b "y", itoa (c.y + s.y)), (b "width", itoa s.w), (b "height", itoa s.h),
        (b "pointer-events", b "none")])) s) = true := by
-  unfold Spec.Svg.slotOk addSubElFormatting
-  simp (config := { decide := true }) only [setAttrs_cons, setAttrs_nil, attr_setAttr,
-      name_setAttr, dec_eq_itoa, bytes_eq]
-  split <;> split <;> split <;>
-  simp (config := { decide := true }) [attr_setAttr, name_setAttr, attr_withRotate, name_withRotate, attr_empty, attr_mk]
+  unfold Spec.Svg.slotOk
+  rw [Bool.and_eq_true]
+  refine ⟨?_, subExtra_ok rot c td s _ ?_ ?_ ?_ ?_⟩
+  · unfold addSubElFormatting
+    simp (config := { decide := true }) only [setAttrs_cons, setAttrs_nil, attr_setAttr,
+        name_setAttr, dec_eq_itoa, bytes_eq]
+    split <;> split <;> split <;>
+    simp (config := { decide := true }) [attr_setAttr, name_setAttr, attr_withRotate, name_withRotate, attr_empty, attr_mk]
+  all_goals simp (config := { decide := true }) only [setAttrs_cons, setAttrs_nil, attr_setAttr, attr_empty, if_false]
 
 theorem subCircle_ok (rot : Str → RotInfo) (c : HWc) (td : TypeDef) (s : SubEl) :
-    Spec.Svg.slotOk c (.subCircle s) (addSubElFormatting (withRotate rot td c (setAttrs { name := b "circle" }
+    Spec.Svg.slotOk (fmtOf rot) c td (.subCircle s) (addSubElFormatting (withRotate rot td c (setAttrs { name := b "circle" }
       [(b "cx", itoa (c.x + s.x)), (b "cy", itoa (c.y + s.y)), (b "r", itoa s.r), (b "pointer-events", b "none")])) s)
       = true := by
-  unfold Spec.Svg.slotOk addSubElFormatting
-  simp (config := { decide := true }) only [setAttrs_cons, setAttrs_nil, attr_setAttr,
-      name_setAttr, dec_eq_itoa, bytes_eq]
-  split <;> split <;> split <;>
-  simp (config := { decide := true }) [attr_setAttr, name_setAttr, attr_withRotate, name_withRotate, attr_empty, attr_mk]
+  unfold Spec.Svg.slotOk
+  rw [Bool.and_eq_true]
+  refine ⟨?_, subExtra_ok rot c td s _ ?_ ?_ ?_ ?_⟩
+  · unfold addSubElFormatting
+    simp (config := { decide := true }) only [setAttrs_cons, setAttrs_nil, attr_setAttr,
+        name_setAttr, dec_eq_itoa, bytes_eq]
+    split <;> split <;> split <;>
+    simp (config := { decide := true }) [attr_setAttr, name_setAttr, attr_withRotate, name_withRotate, attr_empty, attr_mk]
+  all_goals simp (config := { decide := true }) only [setAttrs_cons, setAttrs_nil, attr_setAttr, attr_empty, if_false]
 
 theorem label_ok (rot : Str → RotInfo) (o : Opts) (c : HWc) (td : TypeDef) (ro : List Str) (cnt a : Nat) (txt : Str) :
-    Spec.Svg.slotOk c (.label txt) (labelNode rot o c td ro cnt a txt) = true := by
+    Spec.Svg.slotOk (fmtOf rot) c td (.label txt) (labelNode rot o c td ro cnt a txt) = true := by
   unfold Spec.Svg.slotOk labelNode
   simp only [dec_eq_itoa, bytes_eq]
   split
@@ -249,9 +295,9 @@ theorem visible_eq (mask : Option (List (Nat × Nat))) (c : HWc) : Spec.Svg.visi
 
 /-! ## groups -/
 
-theorem allOk_append (c : HWc) (s1 s2 : List Spec.Svg.Slot) (n1 n2 : List Node)
-    (h1 : Spec.Svg.allOk c s1 n1 = true) (h2 : Spec.Svg.allOk c s2 n2 = true) :
-    Spec.Svg.allOk c (s1 ++ s2) (n1 ++ n2) = true := by
+theorem allOk_append {fmt : Str → Str} {td : TypeDef} (c : HWc) (s1 s2 : List Spec.Svg.Slot) (n1 n2 : List Node)
+    (h1 : Spec.Svg.allOk fmt c td s1 n1 = true) (h2 : Spec.Svg.allOk fmt c td s2 n2 = true) :
+    Spec.Svg.allOk fmt c td (s1 ++ s2) (n1 ++ n2) = true := by
   induction s1 generalizing n1 with
   | nil =>
     cases n1 with
@@ -265,7 +311,7 @@ theorem allOk_append (c : HWc) (s1 s2 : List Spec.Svg.Slot) (n1 n2 : List Node)
       simp only [List.cons_append, Spec.Svg.allOk, Bool.and_eq_true]
       exact ⟨h1.1, ih ns h1.2⟩
 
-theorem allOk_length (c : HWc) (s : List Spec.Svg.Slot) (n : List Node) (h : Spec.Svg.allOk c s n = true) :
+theorem allOk_length {fmt : Str → Str} {td : TypeDef} (c : HWc) (s : List Spec.Svg.Slot) (n : List Node) (h : Spec.Svg.allOk fmt c td s n = true) :
     n.length = s.length := by
   induction s generalizing n with
   | nil =>
@@ -279,13 +325,13 @@ theorem allOk_length (c : HWc) (s : List Spec.Svg.Slot) (n : List Node) (h : Spe
       simp only [Spec.Svg.allOk, Bool.and_eq_true] at h
       simp [ih ys h.2]
 
-theorem allOk_nil (c : HWc) : Spec.Svg.allOk c [] [] = true := rfl
+theorem allOk_nil {fmt : Str → Str} {td : TypeDef} (c : HWc) : Spec.Svg.allOk fmt c td [] [] = true := rfl
 
-theorem allOk_one (c : HWc) (s : Spec.Svg.Slot) (n : Node) (h : Spec.Svg.slotOk c s n = true) :
-    Spec.Svg.allOk c [s] [n] = true := by simp [Spec.Svg.allOk, h]
+theorem allOk_one {fmt : Str → Str} {td : TypeDef} (c : HWc) (s : Spec.Svg.Slot) (n : Node) (h : Spec.Svg.slotOk fmt c td s n = true) :
+    Spec.Svg.allOk fmt c td [s] [n] = true := by simp [Spec.Svg.allOk, h]
 
 theorem subs_ok (rot : Str → RotInfo) (c : HWc) (td : TypeDef) (l : List SubEl) :
-    Spec.Svg.allOk c (l.flatMap Spec.Svg.subSlots) (l.flatMap (subShapes rot c td)) = true := by
+    Spec.Svg.allOk (fmtOf rot) c td (l.flatMap Spec.Svg.subSlots) (l.flatMap (subShapes rot c td)) = true := by
   induction l with
   | nil => rfl
   | cons s r ih =>
@@ -304,7 +350,7 @@ theorem subs_ok (rot : Str → RotInfo) (c : HWc) (td : TypeDef) (l : List SubEl
         rfl
 
 theorem labels_ok (rot : Str → RotInfo) (o : Opts) (c : HWc) (td : TypeDef) :
-    Spec.Svg.allOk c
+    Spec.Svg.allOk (fmtOf rot) c td
       (if (o.showLabels || Spec.Svg.hasHint td.render "txt") = true then (Spec.Svg.labelLines c.txt).map .label else [])
       (labelNodes rot o c td (splitOn 44 td.render)) = true := by
   unfold labelNodes
@@ -313,7 +359,7 @@ theorem labels_ok (rot : Str → RotInfo) (o : Opts) (c : HWc) (td : TypeDef) :
   · simp only
     rw [← labelLines_eq]
     generalize labelCount (splitOn 124 c.txt) = cnt
-    have : ∀ (l : List Nat), Spec.Svg.allOk c
+    have : ∀ (l : List Nat), Spec.Svg.allOk (fmtOf rot) c td
         ((l.map (fun a => (splitOn 124 c.txt).getD a [])).map .label)
         (l.map (fun a => labelNode rot o c td (splitOn 44 td.render) cnt a ((splitOn 124 c.txt).getD a []))) = true := by
       intro l
@@ -326,7 +372,7 @@ theorem labels_ok (rot : Str → RotInfo) (o : Opts) (c : HWc) (td : TypeDef) :
   · rfl
 
 theorem type_ok (rot : Str → RotInfo) (o : Opts) (c : HWc) (td : TypeDef) :
-    Spec.Svg.allOk c (if o.showType = true then [.devText] else []) (typeNode rot o c td) = true := by
+    Spec.Svg.allOk (fmtOf rot) c td (if o.showType = true then [.devText] else []) (typeNode rot o c td) = true := by
   unfold typeNode
   split
   · apply allOk_one
@@ -336,7 +382,7 @@ theorem type_ok (rot : Str → RotInfo) (o : Opts) (c : HWc) (td : TypeDef) :
   · rfl
 
 theorem dispSize_ok (rot : Str → RotInfo) (o : Opts) (c : HWc) (td : TypeDef) :
-    Spec.Svg.allOk c (if (o.showDisplaySize && td.disp.isSome) = true then [.devText] else [])
+    Spec.Svg.allOk (fmtOf rot) c td (if (o.showDisplaySize && td.disp.isSome) = true then [.devText] else [])
       (dispSizeNode rot o c td) = true := by
   unfold dispSizeNode
   cases td.disp with
@@ -351,7 +397,7 @@ theorem dispSize_ok (rot : Str → RotInfo) (o : Opts) (c : HWc) (td : TypeDef) 
     · rfl
 
 theorem id_ok (rot : Str → RotInfo) (o : Opts) (c : HWc) (td : TypeDef) :
-    Spec.Svg.allOk c (if (o.showHWCID || Spec.Svg.hasHint td.render "hwcid") = true then [.idText] else [])
+    Spec.Svg.allOk (fmtOf rot) c td (if (o.showHWCID || Spec.Svg.hasHint td.render "hwcid") = true then [.idText] else [])
       (idNode rot o c td (splitOn 44 td.render)) = true := by
   unfold idNode
   rw [hasHint_eq]
@@ -366,7 +412,7 @@ theorem id_ok (rot : Str → RotInfo) (o : Opts) (c : HWc) (td : TypeDef) :
 
 /-- the elements after the main shape fill exactly the expected slots -/
 theorem rest_ok (rot : Str → RotInfo) (o : Opts) (c : HWc) (td : TypeDef) :
-    Spec.Svg.allOk c (Spec.Svg.slots o c td)
+    Spec.Svg.allOk (fmtOf rot) c td (Spec.Svg.slots o c td)
       (td.sub.flatMap (subShapes rot c td) ++ labelNodes rot o c td (splitOn 44 td.render) ++ typeNode rot o c td ++
         dispSizeNode rot o c td ++ idNode rot o c td (splitOn 44 td.render)) = true := by
   unfold Spec.Svg.slots
@@ -374,7 +420,7 @@ theorem rest_ok (rot : Str → RotInfo) (o : Opts) (c : HWc) (td : TypeDef) :
     (subs_ok rot c td td.sub) (labels_ok rot o c td)) (type_ok rot o c td)) (dispSize_ok rot o c td)) (id_ok rot o c td)
 
 theorem groups_ok (rot : Str → RotInfo) (o : Opts) (t : Topology) (mask : Option (List (Nat × Nat))) (l : List HWc) :
-    Spec.Svg.checkGroups o t (l.filter (Spec.Svg.visible mask)) (l.flatMap (componentNodes rot o t mask)) = none := by
+    Spec.Svg.checkGroups (fmtOf rot) o t (l.filter (Spec.Svg.visible mask)) (l.flatMap (componentNodes rot o t mask)) = none := by
   induction l with
   | nil => rfl
   | cons c r ih =>
